@@ -285,7 +285,13 @@ def run(ctx):
                             ctx.bad("R04.4", ui, "regex-literal-wellformed", "the validation regex %r is malformed (%s): std::regex_error at run time" % (a0["v"], ex), (ui, n.get("ln")))
     ctx.need("R04.4", "regex literals in user_input's constructor", nlit, 1)
     ctx.assume("allocation failure, stack exhaustion and regex_error of the complexity/stack kind inside std::regex_match are outside the claim")
-    ctx.assume("the accept/reject boundary itself (error raised *exactly* under the documented conditions) is not decided")
+    # ---- R04.5: no spurious user-input error - two structural necessary conditions of "exactly when a documented condition holds"
+    ctx.rule("R04.5", "no spurious error: every parse starts from emptied value state (R14.2) and an option claims a token only under its own name or letter (R01.5, R01.7, R01.8)")
+    if ctx.prop == "C04":
+        from .common import share
+        share(ctx, "C14", ("R14.2",), "R04.5", "reset obligations shared with C14", 3)
+        share(ctx, "C01", ("R01.5", "R01.7", "R01.8"), "R04.5", "matching obligations shared with C01", 6)
+    ctx.assume("beyond R04.5 the accept/reject boundary itself (error raised *exactly* under the documented conditions) is not decided")
 
 
 def _accessor_target(prog, n):
